@@ -11,14 +11,16 @@ RULE = (
     "dividing the dataset or not, under a tap on the policy call: per instance the reported reward must equal the "
     "independent objective of the returned actions on the ORIGINAL instance, the solution must be feasible, and the reward "
     "must equal the maximum over that instance's candidate rollouts recorded inside the same call (re-scored on the "
-    "original instance). One evaluation per augmented copy / per evaluated instance; non-trivial = distinct case rows"
+    "original instance); for sampling the same random stream is replayed with select_best=False to see all samples. model_val "
+    "cases: POMO / SymNCO shared_step(val|test) for several (num_starts, num_augment): the per-instance max_reward / "
+    "max_aug_reward and best actions must be the maxima over that instance's own rollouts. One evaluation per augmented copy / per evaluated instance; non-trivial = distinct case rows"
 )
 ASSUMPTIONS = [
     "eval candidates are re-scored with the independent objective on the original instance; infeasible candidates are not eligible as 'best'",
     "OP is evaluated only with methods that do not force start nodes (the OP start rule is a recorded C12 finding)",
     "sampling with select_best happens inside the policy call (covered by C12's tap); here its returned reward is checked against the returned actions",
 ]
-REQUIRED_COUNTERS = ["c15_augment_calls", "c15_copies_checked", "c15_eval_calls", "c15_eval_rows", "c15_candidates"]
+REQUIRED_COUNTERS = ["c15_augment_calls", "c15_copies_checked", "c15_eval_calls", "c15_eval_rows", "c15_candidates", "c15_sampling_replays", "c15_model_val_rows"]
 MIN_NONTRIVIAL = {"quick": 1500, "thorough": 6000}
 WORKERS = {"quick": 14, "thorough": 16}
 BUDGET_S = {"quick": 500, "thorough": 3000}
@@ -43,13 +45,19 @@ def cases(tier, seed):
             for (N, bs) in (((7, 3), (6, 6), (5, 8)) if q else ((7, 3), (6, 6), (5, 8), (16, 5), (9, 2))):
                 for r in range(2 if q else 4):
                     out.append(dict(kind="eval", env=env, n=rnd.choice([6, 8]), N=N, bs=bs, method=m, s=rnd.randrange(10**6), A=8 if "dihedral" in m else rnd.choice([2, 4, 8]), k=rnd.choice([3, 5])))
+    for model, grid in (("pomo", ((3, 8), (5, 8), (4, 1))), ("symnco", ((0, 4), (4, 4), (3, 2), (5, 2), (6, 1), (4, 0)))):
+        for (S, A) in grid:
+            for env in ("tsp", "cvrp"):
+                for B in ((2, 5) if q else (1, 2, 3, 5)):
+                    for r in range(1 if q else 3):
+                        out.append(dict(kind="model_val", model=model, env=env, n=rnd.choice([6, 8]), B=B, S=S, A=A, s=rnd.randrange(10**6), phase=rnd.choice(["val", "test"])))
     return out
 
 
 def run_case(ctx, case):
     from vlib import c15impl
 
-    (c15impl.augment_case if case["kind"] == "augment" else c15impl.eval_case)(ctx, case)
+    {"augment": c15impl.augment_case, "eval": c15impl.eval_case, "model_val": c15impl.model_val_case}[case["kind"]](ctx, case)
 
 
 MANIFEST = {
